@@ -5,6 +5,7 @@ from .core import Out
 from .rules_tables import last, const_value, variants_of
 from .rules_struct import place, calls_in
 from . import roles
+from . import flow
 
 # SPL: which rule class is reported while checking which construct (frozen from the message texts / SPL spec)
 # SPL: which rule class is reported while checking which *kind of node* (frozen from the message texts / SPL spec).
@@ -420,6 +421,13 @@ def rule_update_order(prog):
         nw = [n for n in hir.nodes(par[0], "Call") if (hir.callee_display(n) or "").endswith("new_with_change")]
         ok = ch_lex == ch_rep and bool(nw) and place(nw[0]["args"][1]) == tc_bind and (place(nw[0]["args"][0]) or "").endswith(".tokens") \
             and (place(lex[0]["args"][0]) or "").endswith(".text")
+    reord = [n for n in hir.nodes_deep(prog, b["body"], 2, crate=c) if n.get("k") == "MethodCall" and n["m"] in (
+        "rev", "reverse", "sort", "sort_by", "sort_by_key", "sort_unstable", "sort_unstable_by", "sort_unstable_by_key", "sort_by_cached_key",
+        "dedup", "dedup_by", "dedup_by_key", "retain")
+        and "TextChange" in c.tstr(n["recv"]["t"]) + "".join(c.tstr(a["to"]) for a in n["recv"].get("adj") or [])]
+    out.add("AnalyzedSource::update", "changes are applied in the order given, none dropped", not reord,
+            c.loc((reord[0] if reord else b)["sp"]), "every TextChange is relative to the text produced by its predecessors: "
+            "`%s` on the change list applies them to a text they were not computed for" % (reord[0]["m"] if reord else ""))
     out.add("AnalyzedSource::update", "lexer sees the edited text and the same change; the parser gets that lexer run's TokenChange and the new tokens",
             ok, c.loc(b["sp"]), "")
     return out
@@ -482,4 +490,143 @@ def rule_ident_range(prog):
         out.add("features::DocumentCursor::ident", "Ident.range is the byte range of the token under the cursor", ok, c.loc(cur[0]["sp"]), "")
     if n < 2:
         out.missing("identifier range producers (found %d)" % n)
+    return out
+
+
+# ------------------------------------------------------------------ STRIP-REBUILD
+
+def rule_strip_rebuild(prog):
+    """AnalyzedSource::update re-runs table::build/analyze, which *append* their diagnostics to the tree; the only thing
+    that removes the previous generation's build/semantic diagnostics is parser::update (via `affected`).  So on every
+    path that reaches the re-analysis, parser::update ran at least once for the tree: (1) the per-change step has no path
+    that leaves without calling it, (2) if the step runs once per element of the change list, an empty list is turned
+    away before the re-analysis."""
+    out = Out("STRIP-REBUILD")
+    c = prog.front
+    bs = [b for b in c.bodies if b["d"] == "AnalyzedSource::update"]
+    if not bs:
+        out.missing("AnalyzedSource::update")
+        return out
+    b = bs[0]
+
+    def sig(x):
+        if "sig_in" not in x:
+            return None, None
+        return [c.tstr(t).replace(" ", "") for t in x["sig_in"]], c.tstr(x["sig_out"]).replace(" ", "")
+
+    # roles: strip = fn(Program, TokenStream) -> Program ; append = fn(&mut Program, ..) of module table
+    strip_ps, append_ps = set(), set()
+    for x in c.bodies:
+        ins, o = sig(x)
+        if ins is None or x["k"] != "fn":
+            continue
+        if len(ins) == 2 and ins[0] == "ast::Program" and "TokenStream" in ins[1] and o == "ast::Program":
+            strip_ps.add(x["p"])
+        if ins and ins[0] == "&mutast::Program" and x["p"].startswith("spl_frontend::table::") and "impl" not in x["p"]:
+            append_ps.add(x["p"])
+    if not strip_ps or not append_ps:
+        out.missing("parser::update (fn(Program, TokenStream) -> Program) / table::build+analyze (fn(&mut Program, ..))")
+        return out
+
+    def is_call(n, ps):
+        return n.get("k") == "Call" and (hir.callee(n) or "") in ps
+
+    # the function bodies that make up update(): itself plus private helpers it calls
+    parts = [b]
+    for n in hir.nodes_deep(prog, b["body"], 2, crate=c):
+        if n.get("k") in ("Call", "MethodCall"):
+            hb = hir.local_callee_body(prog, n)
+            if hb is not None and hb["_crate"] is c and hb not in parts and "AnalyzedSource" in hb["d"]:
+                parts.append(hb)
+    appends = [(pb, n) for pb in parts for n in hir.nodes(pb["body"]) if is_call(n, append_ps)]
+    strips = [(pb, n, parents) for pb in parts for n, parents in hir.walk(pb["body"]) if is_call(n, strip_ps)]
+    if not appends:
+        out.add("AnalyzedSource::update", "re-analysis present", None, c.loc(b["sp"]), "no table::build/analyze call found")
+        return out
+    if not strips:
+        out.add("AnalyzedSource::update", "the old build/semantic diagnostics are stripped (parser::update) before the tree is re-analysed",
+                False, c.loc(appends[0][1]["sp"]), "table::build/analyze append their diagnostics; nothing removes the previous ones")
+        return out
+    for pb, sn, parents in strips:
+        # (1) the step: innermost closure / loop body / helper function body around the strip call
+        step = None
+        iterated = False
+        for p in reversed(parents):
+            if p.get("k") in ("Closure", "ForLoop", "While", "Loop"):
+                step = p["body"]
+                iterated = True
+                break
+        if step is None:
+            step = pb["body"]
+            # a helper called once per element?
+            if pb is not b:
+                for n, ps in hir.walk(b["body"]):
+                    if n.get("k") in ("Call", "MethodCall") and hir.local_callee_body(prog, n) is pb:
+                        iterated = any(q.get("k") in ("Closure", "ForLoop", "While", "Loop") for q in ps)
+
+        def classify(n):
+            if is_call(n, strip_ps):
+                return ("strip", n)
+            if n.get("k") == "Call" and (hir.callee(n) or "").startswith("core::panicking"):
+                return ("stop", ("panic", n))
+            return None
+        try:
+            ps_ = flow.paths(step, classify)
+        except OverflowError:
+            ps_ = None
+        if ps_ is None:
+            ok = None
+        else:
+            ok = all(any(ev[0] == "strip" for ev in p) or (p and p[-1][0] == "panic") for p in ps_)
+        out.add("AnalyzedSource::update", "every path through the per-change step runs parser::update", ok, c.loc(sn["sp"]),
+                "a path leaves the per-change step without parser::update: the nodes keep their old build/semantic diagnostics and "
+                "the re-analysis at the end appends them a second time")
+        # (2) zero iterations
+        if iterated:
+            guard = False
+            for n in hir.nodes(b["body"], "If"):
+                cond = hir.strip(n["cond"])
+                if cond.get("k") == "MethodCall" and cond["m"] == "is_empty" and "TextChange" in c.tstr(cond["recv"]["t"]) + "".join(
+                        c.tstr(a["to"]) for a in cond["recv"].get("adj") or []):
+                    if any(True for _ in hir.nodes(n["then"], "Ret")):
+                        guard = True
+            out.add("AnalyzedSource::update", "an empty change list does not reach the re-analysis", guard, c.loc(b["sp"]),
+                    "the per-change step (the only place that strips old build/semantic diagnostics) runs zero times for an empty "
+                    "change list, but table::build/analyze still run and append every diagnostic again: didChange with "
+                    "`contentChanges: []` duplicates all build/semantic diagnostics")
+    return out
+
+
+# ------------------------------------------------------------------ NO-MERGE
+
+def rule_no_merge(prog):
+    """completion: proposal lists of different kinds are concatenated; nothing merges, de-duplicates or drops items by
+    label (SPL lets a variable and a procedure share a name, both must be proposed)."""
+    out = Out("NO-MERGE")
+    c = prog.lsp
+    bodies = [b for b in c.bodies if b["p"].startswith("lsp4spl::features::completion") and "/tests" not in c.file_of(b["sp"])]
+    if len(bodies) < 5:
+        out.missing("features::completion::* (found %d)" % len(bodies))
+        return out
+    removing = ("dedup", "dedup_by", "dedup_by_key", "retain", "retain_mut", "truncate", "drain", "pop", "remove", "swap_remove", "clear",
+                "split_off")
+    keyed = ("HashMap<", "BTreeMap<", "HashSet<", "BTreeSet<", "IndexMap<")
+    for b in bodies:
+        if b["k"] == "closure":
+            continue
+        bad = None
+        why = ""
+        for n in hir.nodes(b["body"]):
+            if "t" not in n:
+                continue
+            td = hir.peel(c, n["t"])
+            if td["k"] == "adt" and any(td["p"].endswith("::" + k[:-1]) for k in keyed) and any(
+                    "CompletionItem" in c.tstr(int(a)) for a in td.get("a") or [] if str(a).isdigit()):
+                bad, why = n, "a keyed collection of completion items (%s): items with equal keys overwrite each other" % td["p"].split("::")[-1]
+            if n.get("k") == "MethodCall" and n["m"] in removing:
+                rt = c.tstr(n["recv"]["t"]) + "".join(c.tstr(a["to"]) for a in n["recv"].get("adj") or [])
+                if "CompletionItem" in rt:
+                    bad, why = n, "`%s` on a list of completion items" % n["m"]
+        out.add(b["d"], "completion items are neither merged by key nor removed after they were collected", bad is None,
+                c.loc((bad or b)["sp"]), why)
     return out
